@@ -109,6 +109,15 @@ def check_pdu(run, reg, choice, klass, v, label):
         run.violation("encode-raised/%s/%s" % (klass.__name__, type(err).__name__), dict(wit, error=repr(err)[:160]))
         return
     run.count("values_encoded")
+    # the same PDU object is encoded once more (a kept request issued again, a decoded request forwarded twice): same octets
+    try:
+        twice = S.encode_pdu(reg, choice, v)
+    except Exception as err:
+        twice = "raised " + type(err).__name__
+    if twice != octets:
+        run.violation("second-encoding-of-the-same-object-differs/%s" % klass.__name__,
+                      dict(wit, first=octets[:40], second=twice[:60] if isinstance(twice, bytes) else twice))
+        return
     try:
         ap = W.apci_parse(octets)
     except W.Malformed as err:
